@@ -80,7 +80,7 @@ func fLeaves(i, n int) []fLeaf {
 		{"[doc#" + y + ", user:*]", fThis(), R(fUserset("doc", y), fWild("user"))},
 		{"[employee:*, doc#" + y + "]", fThis(), R(fWild("employee"), fUserset("doc", y))},
 		{"[doc#" + y + " with k, user]", fThis(), R(fCond(fUserset("doc", y)), fRef("user"))},
-		{"[user, user with k]", fThis(), R(fRef("user"), fCond(fRef("user")))},
+		{"[user, user, user with k]", fThis(), R(fRef("user"), fRef("user"), fCond(fRef("user")))},
 		{"[employee, user:* with k, user, user with k]", fThis(), R(fRef("employee"), fCond(fWild("user")), fRef("user"), fCond(fRef("user")))},
 		{y, fComputed(y), nil},
 		{z, fComputed(z), nil},
@@ -130,6 +130,20 @@ func fForm(i, n int) (string, *openfgav1.Userset, []*openfgav1.RelationReference
 	forms := len(menu) + binary
 	if rev {
 		forms += binary
+	}
+	if zzverif.Param(fmt.Sprintf("NEST%d", i), 0) == 1 {
+		// (A1 op1 A2) op (B1 op2 B2): two sibling groups under one operator
+		small := []fLeaf{leaves[0], leaves[1], leaves[16], leaves[17]}
+		pick := func(t string, first bool) fLeaf {
+			if first {
+				return small[zzverif.Choose(t, len(small))]
+			}
+			return small[2+zzverif.Choose(t, 2)]
+		}
+		op, op1, op2 := zzverif.Choose(tag+".op", 3), zzverif.Choose(tag+".op1", 3), zzverif.Choose(tag+".op2", 3)
+		a1, a2, b1, b2 := pick(tag+".a1", true), pick(tag+".a2", false), pick(tag+".b1", false), pick(tag+".b2", false)
+		text := "(" + a1.text + fOpNames[op1] + a2.text + ")" + fOpNames[op] + "(" + b1.text + fOpNames[op2] + b2.text + ")"
+		return text, fOp(op, fOp(op1, a1.u, a2.u), fOp(op2, b1.u, b2.u)), a1.restr
 	}
 	c := zzverif.Choose(tag, forms)
 	if c < len(menu) {
